@@ -511,9 +511,9 @@ def simpler_specs(spec):
     k = spec["k"]
     n = lg.spec_len(spec)
     if k == "numpy" and n > 0:
-        d = copy.deepcopy(spec); d["shape"] = [n - 1]; yield d
+        d = copy.deepcopy(spec); d["shape"] = [n - 1] + spec["shape"][1:]; yield d
         if n > 1:
-            d = copy.deepcopy(spec); d["shape"] = [1]; yield d
+            d = copy.deepcopy(spec); d["shape"] = [1] + spec["shape"][1:]; yield d
     elif k != "empty" and n > 0:
         d = copy.deepcopy(spec)
         d["n"] = n - 1
